@@ -1,4 +1,4 @@
-//@unit name=scans props=C05,C16
+//@unit name=scans props=C05,C16,C06
 //@strip-pub
 // Unit `scans`: SeqScan::next and IndexScan::next, the leaves of every plan (C05: a scan returns exactly the rows of the
 // table that are visible to the transaction and satisfy the pushed-down predicate, in cursor order;
@@ -164,7 +164,7 @@ impl IndexScan {
 
 //@fn crates/axmos-db/src/runtime/ops/index_scan.rs | impl IndexScan | evaluate_residual_predicate
 //@ ensures
-//@   [C05:indexscan.residual_is_the_planned_one] r matches Ok(b) ==> b == (self.residual_predicate matches Some(e) ==> sat(&e, *row)),
+//@   [C05,C06:indexscan.residual_is_the_planned_one] r matches Ok(b) ==> b == (self.residual_predicate matches Some(e) ==> sat(&e, *row)),
 //@end
 
 //@fn crates/axmos-db/src/runtime/ops/index_scan.rs | impl Executor for IndexScan | next
@@ -172,9 +172,9 @@ impl IndexScan {
 //@ requires
 //@   old(self).inv(),
 //@ ensures
-//@   [C05:indexscan.keeps_inv] final(self).inv() && final(self).same_scan(old(self)),
-//@   [C05:indexscan.returns_the_table_row_of_the_next_qualifying_entry] r matches Ok(Some(row)) ==> (old(self).at() < final(self).at() && ix_emits(old(self), old(self).cells()[final(self).at() - 1]) == Some(row) && (forall|j: int| old(self).at() <= j < final(self).at() - 1 ==> ix_emits(old(self), #[trigger] old(self).cells()[j]) is None)),
-//@   [C05:indexscan.end_only_if_no_entry_qualifies] r matches Ok(None) ==> (forall|j: int| old(self).at() <= j < old(self).cells().len() ==> ix_emits(old(self), #[trigger] old(self).cells()[j]) is None),
+//@   [C05,C06:indexscan.keeps_inv] final(self).inv() && final(self).same_scan(old(self)),
+//@   [C05,C06:indexscan.returns_the_table_row_of_the_next_qualifying_entry] r matches Ok(Some(row)) ==> (old(self).at() < final(self).at() && ix_emits(old(self), old(self).cells()[final(self).at() - 1]) == Some(row) && (forall|j: int| old(self).at() <= j < final(self).at() - 1 ==> ix_emits(old(self), #[trigger] old(self).cells()[j]) is None)),
+//@   [C05,C06:indexscan.end_only_if_no_entry_qualifies] r matches Ok(None) ==> (forall|j: int| old(self).at() <= j < old(self).cells().len() ==> ix_emits(old(self), #[trigger] old(self).cells()[j]) is None),
 //@ loop 1
 //@   invariant
 //@     self.inv(), self.cursor is Some, self.same_scan(old(self)), old(self).at() <= self.at(),
